@@ -33,8 +33,9 @@ func OpenRaceLog(outDir string, batch int) *RaceLog {
 type RaceReport struct {
 	Text string
 	// Sig is "funcA|funcB": the first library frame of each of the two
-	// conflicting accesses (the first frame of the access when it has no
-	// library frame), library prefix stripped, sorted.
+	// conflicting accesses, library prefix stripped; for an access without a
+	// library frame the first harness frame ("harness:pkg.func"), else its
+	// first frame; sorted.
 	Sig string
 	// HarnessOnly: neither access stack contains a library frame.
 	HarnessOnly bool
@@ -102,7 +103,7 @@ func parseRace(block string) RaceReport {
 		if !(strings.Contains(head, " by goroutine ") || strings.Contains(head, " by main goroutine")) {
 			continue
 		}
-		first, firstLib := "", ""
+		first, firstLib, firstHarness := "", "", ""
 		for _, ln := range lines[1:] {
 			if strings.HasPrefix(ln, "      ") || strings.TrimSpace(ln) == "" {
 				continue // file:line
@@ -114,6 +115,9 @@ func parseRace(block string) RaceReport {
 			if first == "" {
 				first = fn
 			}
+			if firstHarness == "" && strings.HasPrefix(fn, "verif/") {
+				firstHarness = "harness:" + fn[strings.LastIndex(fn, "/")+1:]
+			}
 			if strings.HasPrefix(fn, LibPrefix) {
 				firstLib = ShortFunc(fn)
 				break
@@ -122,6 +126,8 @@ func parseRace(block string) RaceReport {
 		if firstLib != "" {
 			lib = true
 			sigs = append(sigs, firstLib)
+		} else if firstHarness != "" {
+			sigs = append(sigs, firstHarness)
 		} else {
 			sigs = append(sigs, first)
 		}
